@@ -14,7 +14,8 @@ MANIFEST = {
 
 def run(ctx):
     lrfamily.obligations(ctx, MODULE, THEOREMS)
-    lrfamily.compiled_layer(ctx, "C07")
+    # every grammar template once, then random ones: the ascent generator is tied by this differential only
+    lrfamily.compiled_layer(ctx, "C07", grammars=ctx.vol(60, 400), inputs=ctx.vol(30, 60))
     lrfamily.driver_layer(ctx, "C07")
     ctx.coverage.setdefault("trusted_base", []).extend(lrfamily.TRUST_LR)
     ctx.coverage["rule"] = ("grammars from LR-biased templates, mutations and random CFGs x {lane-table, canonical LR(1), LALR}; "
